@@ -32,6 +32,7 @@ type runStage struct {
 	Rate     string // constant mode
 	Params   map[string]string
 	Inherit  bool // the stage omits `parameters` and takes the default section's
+	Bulk     int  // further parameters VERIF_C15_BULK_<i> of this stage (many: setting them takes a while)
 }
 
 type runCase struct {
@@ -63,7 +64,17 @@ func (c runCase) config() planCfg {
 			sc.Rate = ptr(s.Rate)
 		}
 		if !s.Inherit {
-			sc.Parameters = ptr(s.Params)
+			params := s.Params
+			if s.Bulk > 0 {
+				params = map[string]string{}
+				for k, v := range s.Params {
+					params[k] = v
+				}
+				for i := 0; i < s.Bulk; i++ {
+					params[bulkKey(i)] = "b"
+				}
+			}
+			sc.Parameters = ptr(params)
 		}
 		p.Stages = append(p.Stages, sc)
 	}
@@ -88,6 +99,8 @@ func (c runCase) expectedEnv(k int) map[string]string {
 	}
 	return map[string]string{}
 }
+
+func bulkKey(i int) string { return fmt.Sprintf("VERIF_C15_BULK_%d", i) }
 
 func genParams(t *rapid.T, label string, seq *int) map[string]string {
 	m := map[string]string{}
@@ -122,6 +135,9 @@ func genRun(t *rapid.T) runCase {
 			s.Inherit = true
 		} else {
 			s.Params = genParams(t, fmt.Sprintf("s%dParams", i), &seq)
+			if s.Mode == mConstant && rapid.IntRange(0, 3).Draw(t, fmt.Sprintf("s%dBulk", i)) == 0 {
+				s.Bulk = 3000 // putting these into the environment takes longer than starting a pool
+			}
 		}
 		c.Stages = append(c.Stages, s)
 	}
@@ -202,7 +218,8 @@ func (s snapshot) exactly(want map[string]string) bool {
 }
 
 const (
-	evBegin = iota
+	evTick  = -1 // a tick's request was handed to a pool
+	evBegin = iota - 1
 	evEnd
 	evReadStart
 	evReadEnd
@@ -233,6 +250,10 @@ func (l *eventLog) hook(point string) {
 	case "file.stage.end":
 		l.mu.Lock()
 		l.events = append(l.events, event{Kind: evEnd, ID: l.begins - 1, Snap: takeSnapshot()})
+		l.mu.Unlock()
+	case "pool.trigger.after_ctx_check":
+		l.mu.Lock()
+		l.events = append(l.events, event{Kind: evTick, ID: l.begins})
 		l.mu.Unlock()
 	}
 }
@@ -268,6 +289,12 @@ func judgeLog(c runCase, events []event) (string, runFacts) {
 	spans := map[int]span{}
 	for i, e := range events {
 		switch e.Kind {
+		case evTick:
+			// "each stage's parameters are present in the environment while it triggers": no request is
+			// handed to a pool between two stages - before the next stage's parameters are in place
+			if !open {
+				return fmt.Sprintf("a tick's request was handed to a worker pool after %d stage(s) had begun and while none was running (before the next stage reported that its parameters are in the environment)", e.ID), f
+			}
 		case evBegin:
 			if open {
 				return fmt.Sprintf("stage %d began before stage %d ended (stages must run strictly one after another)", e.ID, e.ID-1), f
@@ -377,6 +404,15 @@ func TestProp_StagedRun(t *testing.T) {
 		for _, k := range runKeys {
 			os.Unsetenv(k)
 		}
+		bulkLeft := ""
+		for _, st := range c.Stages {
+			for i := 0; i < st.Bulk; i++ {
+				if _, set := os.LookupEnv(bulkKey(i)); set {
+					bulkLeft = bulkKey(i)
+					os.Unsetenv(bulkKey(i))
+				}
+			}
+		}
 		if err != nil {
 			rt.Fatalf("VERIF-INFRA: cannot execute the run: %v\n%s", err, text)
 		}
@@ -415,6 +451,12 @@ func TestProp_StagedRun(t *testing.T) {
 		if c.Cut != "" {
 			classes = append(classes, "cut-short-by-"+c.Cut)
 		}
+		for _, st := range c.Stages {
+			if st.Bulk > 0 {
+				classes = append(classes, "stage-with-thousands-of-parameters")
+				break
+			}
+		}
 		if facts.Unjudged > 0 {
 			classes = append(classes, "bodies-straddling-a-stage-event")
 		}
@@ -434,6 +476,9 @@ func TestProp_StagedRun(t *testing.T) {
 		}
 		if after != (snapshot{}) {
 			fail(fmt.Sprintf("after the run returned the environment still holds %s", after))
+		}
+		if bulkLeft != "" {
+			fail(fmt.Sprintf("after the run returned the environment still holds the stage parameter %s", bulkLeft))
 		}
 		// f1 gives the whole plan a budget of the sum of the stage durations (minus a ~10 ms window); bodies
 		// that outlive their stage delay the next one, so late stages may legitimately not start once that
@@ -460,6 +505,10 @@ func renderEvents(events []event) []string {
 	names := []string{"begin", "end", "read-start", "read-end"}
 	out := make([]string, 0, len(events))
 	for i, e := range events {
+		if e.Kind == evTick {
+			out = append(out, fmt.Sprintf("%d tick-handed-over (stages begun: %d)", i, e.ID))
+			continue
+		}
 		s := fmt.Sprintf("%d %s %d", i, names[e.Kind], e.ID)
 		if e.Kind != evReadStart {
 			s += " " + e.Snap.String()
